@@ -68,6 +68,29 @@ def make_pairs(tier, rng):
                 if rng.random() < 0.5:      # node names that contain one another (decisions are compared by name)
                     p2 = gen.rename_nodes(prog, {"A": "step", "B": "step_b", "C": "b"})
                 pairs.append((gen.job(0, p2, prov, mode=mode), ("cyc/" if cyc else "dag/") + tag))
+    # a gated gate INSIDE a cycle: outer(count) -> inner | finish, inner(count) -> work | END, work(count) -> count.  Once outer
+    # selects finish, inner's old decision is stale and it never decides again: work must not start any more
+    for n_iter in (1, 2):
+        for order in (0, 1):
+            for dopen in (True, False):
+                outer = IR.route("outer", ["count"], ["inner", "finish"], [["inner"]] * n_iter + [["finish"]], default_open=dopen)
+                inner = IR.route("inner", ["count"], ["work", "END"], [["work"]] * 4, default_open=dopen)
+                work, fin = IR.func("work", ["count"], ["count"]), IR.func("finish", ["count"], ["result"])
+                nodes = [outer, inner, work, fin] if order == 0 else [fin, work, inner, outer]
+                for mode in ("sync", "async"):
+                    pairs.append((gen.job(0, IR.prog("top", copy.deepcopy(nodes), max_iter=25), [["count", "in.count"]], mode=mode),
+                                  f"gated-gate-in-cycle/N{n_iter}/{'open' if dopen else 'closed'}/o{order}"))
+    # a route gate whose FALLBACK is not among its listed targets: it is a target all the same (held back / closed like them)
+    for dopen in (True, False):
+        for dec in ([IR.NONE], ["A"]):
+            for order in (0, 1):
+                for gname in ("G", "gate", "pick"):          # (list or dict form of the targets depends on the name)
+                    G = IR.route(gname, ["x"], ["A", "B"], [dec], fallback="B", default_open=dopen, ctor_targets=["A"])
+                    na, nb, up = IR.func("A", ["x", "u"], ["a"]), IR.func("B", ["x"], ["b"]), IR.func("U", ["x"], ["u"])
+                    nodes = [G, na, nb, up] if order == 0 else [nb, up, na, G]
+                    for mode in ("sync", "async"):
+                        pairs.append((gen.job(0, IR.prog("top", copy.deepcopy(nodes), max_iter=10), [["x", "in.x"]], mode=mode),
+                                      f"fallback-outside-targets/{gname}/{'open' if dopen else 'closed'}/{dec[0]}/o{order}"))
     # CHAINED gates: a gate that is itself the target of another gate; everything is runnable at once, so whatever holds a
     # gate's targets back until it has decided must hold the targets of a held-back gate back as well
     for dopen_o in (True, False):
